@@ -58,12 +58,16 @@ def _isr(s):
     return [s[(i % 4) + 4 * (((i // 4) - (i % 4)) % 4)] for i in range(16)]
 
 
+_T = {c: [_pmul(v, c) for v in range(256)] for c in (1, 2, 3, 9, 11, 13, 14)}     # the reference's own GF tables (speed only)
+
+
 def _mc(s, m):
     out = []
+    t0, t1, t2, t3 = _T[m[0]], _T[m[1]], _T[m[2]], _T[m[3]]
     for c in range(4):
-        a = s[4 * c:4 * c + 4]
-        for r in range(4):
-            out.append(_pmul(a[0], m[(0 - r) % 4]) ^ _pmul(a[1], m[(1 - r) % 4]) ^ _pmul(a[2], m[(2 - r) % 4]) ^ _pmul(a[3], m[(3 - r) % 4]))
+        a0, a1, a2, a3 = s[4 * c:4 * c + 4]
+        out += [t0[a0] ^ t1[a1] ^ t2[a2] ^ t3[a3], t3[a0] ^ t0[a1] ^ t1[a2] ^ t2[a3],
+                t2[a0] ^ t3[a1] ^ t0[a2] ^ t1[a3], t1[a0] ^ t2[a1] ^ t3[a2] ^ t0[a3]]
     return out
 
 
@@ -91,21 +95,21 @@ def ecb(key, data, enc=True):
 
 def cbc_enc(key, iv, data):
     rks = key_expansion(key)
-    prev, out = iv, b""
+    prev, out = iv, []
     for i in range(0, len(data), 16):
         prev = enc_block(bytes(a ^ b for a, b in zip(data[i:i + 16], prev)), rks)
-        out += prev
-    return out
+        out.append(prev)
+    return b"".join(out)
 
 
 def cbc_dec(key, iv, data):
     rks = key_expansion(key)
-    prev, out = iv, b""
+    prev, out = iv, []
     for i in range(0, len(data), 16):
         blk = data[i:i + 16]
-        out += bytes(a ^ b for a, b in zip(dec_block(blk, rks), prev))
+        out.append(bytes(a ^ b for a, b in zip(dec_block(blk, rks), prev)))
         prev = blk
-    return out
+    return b"".join(out)
 
 
 assert ecb(bytes(range(16)), bytes.fromhex("00112233445566778899aabbccddeeff")).hex() == "69c4e0d86a7b0430d8cdb78070b4c55a"
@@ -129,8 +133,11 @@ def _wrapper(m):
             key = bytes(range(klen))
             for n in list(range(0, 40)) + [63, 64, 65]:
                 for d in ((bytes(range(7, 250)) * 2)[:n], bytes([16 - (n % 16) or 16]) * n):
-                    c = fb.CryptAES(key)
-                    enc = c.encrypt(d)
+                    try:
+                        c = fb.CryptAES(key)
+                        enc = c.encrypt(d)
+                    except Exception as e:  # noqa
+                        return ("CryptAES.encrypt", {"key": key.hex(), "data": d.hex()}, "iv + padded ciphertext", f"raised {type(e).__name__}: {e}")
                     if len(enc) != 16 + len(d) + (16 - len(d) % 16):
                         return ("CryptAES.encrypt", {"key": key.hex(), "data": d.hex()}, "iv + padded ciphertext", f"{len(enc)} bytes")
                     iv, body = enc[:16], enc[16:]
@@ -145,6 +152,211 @@ def _wrapper(m):
                         return ("CryptAES.decrypt", {"key": key.hex(), "data": d.hex()}, d.hex(), bytes(back).hex())
         return None
     return run
+
+
+def _source_ints(m):
+    """int literals of the module source outside the big table literals (candidates for run / chunk / cache sizes)"""
+    import ast
+    try:
+        tree = ast.parse(open(m.__file__, encoding="utf-8").read())
+    except Exception:  # noqa
+        return set()
+    out = set()
+
+    def walk(n):
+        if isinstance(n, (ast.Tuple, ast.List)) and len(n.elts) > 32:
+            return
+        if isinstance(n, ast.Constant) and isinstance(n.value, int) and not isinstance(n.value, bool):
+            out.add(n.value)
+        for ch in ast.iter_child_nodes(n):
+            walk(ch)
+    walk(tree)
+    return out
+
+
+def boundaries(m, cap=1 << 17):
+    """message sizes (bytes) at which a blocked / batched driver could change behaviour: powers of two and every int literal
+    of the module read as a byte count and as a block count"""
+    bs = {1 << e for e in range(6, 15)}
+    for v in _source_ints(m):
+        if 32 <= v <= cap and v % 16 == 0:
+            bs.add(v)
+        if 2 <= v and 16 * v <= cap:
+            bs.add(16 * v)
+    return sorted(bs)
+
+
+def long_lengths(m, budget=700_000):
+    """block-aligned lengths around every boundary, shortest first, within a total byte budget"""
+    seen, total = set(), 0
+    for b in boundaries(m):
+        for n in (b, b + 16, 2 * b + 32):
+            if n in seen or n <= 80:
+                continue
+            if total + n > budget:
+                return
+            seen.add(n)
+            total += n
+            yield n
+
+
+def _first_bad_block(a, b):
+    for i in range(0, max(len(a), len(b)), 16):
+        if a[i:i + 16] != b[i:i + 16]:
+            return i // 16
+    return None
+
+
+def long_messages(m, seed=0):
+    """SP 800-38A equations on LONG block-aligned messages (directed search over the message length: the drivers are specified
+    for every length, a batched implementation can go wrong only beyond its batch size).  -> failure tuple | None"""
+    rnd = random.Random(0xC20 + seed)
+    for idx, n in enumerate(long_lengths(m)):
+        klen = (16, 32, 24)[idx % 3]
+        key, iv, data = rnd.randbytes(klen), rnd.randbytes(16), rnd.randbytes(n)
+        m._ROUND_KEY_CACHE.clear()
+        c_ecb, c_cbc = ecb(key, data), cbc_enc(key, iv, data)     # reference; its inverse on these ciphertexts is `data`
+        for name, call, want in (("aes_ecb_encrypt", lambda: m.aes_ecb_encrypt(key, data), c_ecb),
+                                 ("aes_ecb_decrypt", lambda: m.aes_ecb_decrypt(key, c_ecb), data),
+                                 ("aes_cbc_encrypt", lambda: m.aes_cbc_encrypt(key, iv, data), c_cbc),
+                                 ("aes_cbc_decrypt", lambda: m.aes_cbc_decrypt(key, iv, c_cbc), data)):
+            try:
+                got = bytes(call())
+            except Exception as e:  # noqa
+                got = f"{type(e).__name__}: {e}".encode()
+            if got != want:
+                arg = c_ecb if name == "aes_ecb_decrypt" else c_cbc if name == "aes_cbc_decrypt" else data
+                inputs = {"key": key.hex(), "data": arg.hex(), "length": n, "first_bad_block": _first_bad_block(got, want)}
+                if "cbc" in name:
+                    inputs["iv"] = iv.hex()
+                k = 16 * (inputs["first_bad_block"] or 0)
+                return (name, inputs, f"block {k // 16}: {want[k:k + 16].hex()}", f"block {k // 16}: {got[k:k + 16].hex()}")
+    return None
+
+
+def _provider():
+    try:
+        import pypdf._crypt_providers as providers
+        if providers.crypt_provider[0] != "local_crypt_fallback":
+            return None
+        import pypdf._crypt_providers._fallback as fb
+        return fb
+    except Exception:  # noqa
+        return None
+
+
+def fresh_iv(m):
+    """The stream wrapper prepends a FRESH IV: after ONE patch_pypdf_fallback_aes() the IVs of all encrypt() calls (same object,
+    other objects, other keys, equal and different streams, before and after re-applying the patch) are pairwise distinct
+    (a collision of honest 128-bit random IVs has probability < 2^-115 here)."""
+    fb = _provider()
+    if fb is None or not m.patch_pypdf_fallback_aes():
+        return None
+    import pypdf._encryption as enc
+    seen = {}
+    log = []
+    objs = [fb.CryptAES(bytes(range(16))), enc.CryptAES(bytes(range(16))), enc.CryptAES(bytes(range(1, 33)))]
+    for rnd_ in range(3):
+        if rnd_ == 2:
+            m.patch_pypdf_fallback_aes()
+            objs.append(enc.CryptAES(bytes(range(2, 18))))
+        for oi, c in enumerate(objs):
+            for msg in (b"same stream", b"same stream", b"stream %d" % rnd_, b""):
+                out = c.encrypt(msg)
+                iv = bytes(out[:16])
+                log.append((oi, msg))
+                if len(out) < 16:
+                    return ("CryptAES.encrypt", {"data": msg.hex()}, "IV || ciphertext", f"{len(out)} bytes")
+                if iv in seen:
+                    j = seen[iv]
+                    return ("CryptAES.encrypt", {"calls": f"one patch_pypdf_fallback_aes(), then encrypt() call #{j} (object {log[j][0]}, data {log[j][1]!r}) "
+                                                          f"and call #{len(log) - 1} (object {oi}, data {msg!r})", "key_of_second": getattr(c, "key", b"").hex()},
+                            "two different 16-byte IVs (a fresh secrets.token_bytes(16) per call)", f"both calls used IV {iv.hex()}")
+                seen[iv] = len(log) - 1
+    return None
+
+
+def installed(m):
+    """what pypdf calls after patch_pypdf_fallback_aes(): the bindings in the fallback provider module, in the provider
+    package and in pypdf._encryption (which imported the names earlier) against the reference"""
+    fb = _provider()
+    if fb is None:
+        return None
+    try:
+        applied = m.patch_pypdf_fallback_aes()
+    except Exception as e:  # noqa
+        applied = f"raised {type(e).__name__}: {e}"
+    if applied is not True:
+        return ("patch_pypdf_fallback_aes", {"pypdf provider": "local_crypt_fallback (no crypto library installed)"}, "True (AES installed)", repr(applied))
+    import pypdf._crypt_providers as providers
+    import pypdf._encryption as enc
+    key, iv = bytes(range(3, 19)), bytes(range(100, 116))
+    data = bytes(range(7, 55))
+    want = {"aes_ecb_encrypt": ((key, data), ecb(key, data)), "aes_ecb_decrypt": ((key, data), ecb(key, data, False)),
+            "aes_cbc_encrypt": ((key, iv, data), cbc_enc(key, iv, data)), "aes_cbc_decrypt": ((key, iv, data), cbc_dec(key, iv, data))}
+    for mod in (fb, providers, enc):
+        for name, (args, ref) in want.items():
+            try:
+                got = bytes(getattr(mod, name)(*args))
+            except Exception as e:  # noqa
+                got = f"{type(e).__name__}: {e}".encode()
+            if got != ref:
+                return (f"{mod.__name__}.{name} (after patch_pypdf_fallback_aes)", {"args": [a.hex() for a in args]}, ref.hex(), got.hex() if len(got) == len(ref) else repr(got))
+        for k in (bytes(range(16)), bytes(range(32))):
+            for d in (b"", b"0123456789abcdef", bytes(range(40))):
+                try:
+                    c = mod.CryptAES(k)
+                    out = bytes(c.encrypt(d))
+                    pad = 16 - len(d) % 16
+                    ok = out[16:] == cbc_enc(k, out[:16], d + bytes([pad]) * pad) and bytes(mod.CryptAES(k).decrypt(out)) == d
+                    obs = out.hex()
+                except Exception as e:  # noqa
+                    ok, obs = False, f"{type(e).__name__}: {e}"
+                if not ok:
+                    return (f"{mod.__name__}.CryptAES (after patch_pypdf_fallback_aes)", {"key": k.hex(), "data": d.hex()},
+                            "encrypt = IV || CBC_key(pad(data)); a new CryptAES(key).decrypt inverts it", obs)
+    return None
+
+
+def chunks_ok(m):
+    """the assumed contract of _chunks: block j of a block-aligned buffer is bytes 16j..16j+15 (bytes and memoryview input)"""
+    for n in list(range(0, 81, 16)) + [4096, 4112]:
+        d = bytes((7 * i + 3) % 256 for i in range(n))
+        for buf in (d, memoryview(d), bytearray(d)):
+            got = [bytes(x) for x in m._chunks(buf, 16)]
+            if got != [d[i:i + 16] for i in range(0, n, 16)]:
+                return ("_chunks", {"data": d.hex(), "size": 16, "type": type(buf).__name__}, f"{n // 16} consecutive 16-byte blocks", f"{len(got)} chunks")
+    return None
+
+
+def wrapper_long(m, cbc_enc, seed=0):
+    """CryptAES round trip / CBC equation on streams around the long-message boundaries"""
+    fb = _provider()
+    if fb is None or not m.patch_pypdf_fallback_aes():
+        return None
+    rnd = random.Random(0xC200 + seed)
+    total = 0
+    for b in boundaries(m):
+        for n in (b - 16, b + 5):
+            if n <= 65 or total > 150_000:
+                continue
+            total += n
+            key = rnd.randbytes((16, 32)[(n // 16) % 2])
+            d = rnd.randbytes(n)
+            c = fb.CryptAES(key)
+            try:
+                out = bytes(c.encrypt(d))
+                pad = 16 - n % 16
+                if out[16:] != cbc_enc(key, out[:16], d + bytes([pad]) * pad):
+                    return ("CryptAES.encrypt", {"key": key.hex(), "data": d.hex(), "length": n}, "IV || CBC(pad(data)) under the prepended IV", out[:48].hex() + "...")
+                back = bytes(c.decrypt(out))
+            except Exception as e:  # noqa
+                back = f"{type(e).__name__}: {e}".encode()
+            if back != d:
+                k = 16 * (_first_bad_block(back, d) or 0)
+                return ("CryptAES.decrypt", {"key": key.hex(), "data_encrypted": d.hex(), "length": n, "first_bad_block": k // 16},
+                        f"block {k // 16}: {d[k:k + 16].hex()}", f"block {k // 16}: {back[k:k + 16].hex()}")
+    return None
 
 
 def cases(seed):
@@ -184,39 +396,54 @@ def find(req):
         for b in (0, 1, 2, 3, 9, 11, 13, 14, 0x80, 0xFF, a):
             if m._gf_mul(a, b) != _pmul(a, b):
                 return bad("_gf_mul", {"a": a, "b": b}, _pmul(a, b), m._gf_mul(a, b))
+    def run(fn, *args):
+        """value of a call on VALID inputs; an escaping exception is an observation like any other"""
+        try:
+            r = fn(*args)
+            return [bytes(x) for x in r] if isinstance(r, list) else bytes(r)
+        except Exception as e:  # noqa
+            return f"raised {type(e).__name__}: {e}"
+
+    def hx(v):
+        return v.hex() if isinstance(v, (bytes, bytearray)) else ([x.hex() for x in v][-1] if isinstance(v, list) and v else str(v))
+
+    r = chunks_ok(m)
+    if r is not None:
+        return bad(*r)
     for key, iv, data in cases(int(os.environ.get("VERIF_SEED", "0") or 0)):
         tried += 1
         m._ROUND_KEY_CACHE.clear()
         rks = key_expansion(key)
-        got = [bytes(x) for x in m._expand_key(key)]
+        got = run(m._expand_key, key)
         if got != rks:
-            return bad("_expand_key", {"key": key.hex()}, [x.hex() for x in rks][-1], [x.hex() for x in got][-1])
+            return bad("_expand_key", {"key": key.hex()}, hx(rks), hx(got))
         blk = (data + bytes(16))[:16]
         for fn, ref in ((m._aes_encrypt_block, enc_block), (m._aes_decrypt_block, dec_block)):
-            if bytes(fn(blk, rks)) != ref(blk, rks):
-                return bad(fn.__name__, {"block": blk.hex(), "key": key.hex()}, ref(blk, rks).hex(), bytes(fn(blk, rks)).hex())
-        for name, got, want in (("aes_ecb_encrypt", m.aes_ecb_encrypt(key, data), ecb(key, data)),
-                                ("aes_ecb_decrypt", m.aes_ecb_decrypt(key, data), ecb(key, data, False)),
-                                ("aes_cbc_encrypt", m.aes_cbc_encrypt(key, iv, data), cbc_enc(key, iv, data)),
-                                ("aes_cbc_decrypt", m.aes_cbc_decrypt(key, iv, data), cbc_dec(key, iv, data))):
-            if bytes(got) != want:
-                return bad(name, {"key": key.hex(), "iv": iv.hex(), "data": data.hex()}, want.hex(), bytes(got).hex())
+            got = run(fn, blk, rks)
+            if got != ref(blk, rks):
+                return bad(fn.__name__, {"block": blk.hex(), "key": key.hex()}, ref(blk, rks).hex(), hx(got))
+        for name, got, want in (("aes_ecb_encrypt", run(m.aes_ecb_encrypt, key, data), ecb(key, data)),
+                                ("aes_ecb_decrypt", run(m.aes_ecb_decrypt, key, data), ecb(key, data, False)),
+                                ("aes_cbc_encrypt", run(m.aes_cbc_encrypt, key, iv, data), cbc_enc(key, iv, data)),
+                                ("aes_cbc_decrypt", run(m.aes_cbc_decrypt, key, iv, data), cbc_dec(key, iv, data))):
+            if got != want:
+                return bad(name, {"key": key.hex(), "iv": iv.hex(), "data": data.hex()}, want.hex(), hx(got))
         for n in range(0, 40, 7):
             d = data[:n] if len(data) >= n else bytes(n)
-            p = m._pkcs7_pad(d, 16)
-            if len(p) % 16 or p[:len(d)] != d or m._pkcs7_unpad(p, 16) != d:
-                return bad("_pkcs7_pad/_pkcs7_unpad", {"data": d.hex()}, "unpad(pad(d)) == d", p.hex())
+            p = run(m._pkcs7_pad, d, 16)
+            if isinstance(p, str) or len(p) % 16 or p[:len(d)] != d or run(m._pkcs7_unpad, p, 16) != d:
+                return bad("_pkcs7_pad/_pkcs7_unpad", {"data": d.hex()}, "unpad(pad(d)) == d", hx(p))
     # PKCS#7: plaintexts ending in their own pad byte value, all pad lengths
     for n in range(0, 50):
         for tail in (b"", b"\x01", b"\x02\x02", b"\x10" * 3, bytes([16 - (n % 16)]) * 2):
             d = (bytes(range(1, 200)) * 2)[:n] + tail
-            p = m._pkcs7_pad(d, 16)
+            p = run(m._pkcs7_pad, d, 16)
             want_p = 16 - len(d) % 16
-            if len(p) != len(d) + want_p or p[:len(d)] != d or p[len(d):] != bytes([want_p]) * want_p:
-                return bad("_pkcs7_pad", {"data": d.hex()}, (d + bytes([want_p]) * want_p).hex(), p.hex())
-            u = m._pkcs7_unpad(p, 16)
+            if isinstance(p, str) or len(p) != len(d) + want_p or p[:len(d)] != d or p[len(d):] != bytes([want_p]) * want_p:
+                return bad("_pkcs7_pad", {"data": d.hex()}, (d + bytes([want_p]) * want_p).hex(), hx(p))
+            u = run(m._pkcs7_unpad, p, 16)
             if u != d:
-                return bad("_pkcs7_unpad", {"data": p.hex()}, d.hex(), bytes(u).hex())
+                return bad("_pkcs7_unpad", {"data": p.hex()}, d.hex(), hx(u))
     for badpad in (b"abc\x00", b"abc\x11", b"ab\x02\x03", bytes(15) + b"\x05"):
         try:
             r = m._pkcs7_unpad(badpad, 16)
@@ -228,10 +455,10 @@ def find(req):
     hist = [bytes(15) + b"\x07", bytes(23) + b"\x07", bytes(31) + b"\x07", b"\x07" + bytes(15), bytes(16), bytes(24), bytes(32), bytes(15) + b"\x07"]
     for key in hist + hist[::-1]:
         tried += 1
-        got = [bytes(x) for x in m._get_round_keys(key)]
+        got = run(m._get_round_keys, key)
         if got != key_expansion(key):
             return bad("_get_round_keys", {"key": key.hex(), "history": "keys differing by leading zeros / length, cache not cleared"},
-                       key_expansion(key)[-1].hex(), got[-1].hex())
+                       key_expansion(key)[-1].hex(), hx(got))
     for badkey in (bytes(15), bytes(17), b"", b"\x07"):
         try:
             m._get_round_keys(badkey)
@@ -243,6 +470,12 @@ def find(req):
         r = wrapper(m, cbc_enc, cbc_dec)
         if r is not None:
             return bad(*r)
+    r = installed(m) or fresh_iv(m)
+    if r is not None:
+        return bad(*r)
+    r = long_messages(m, int(os.environ.get("VERIF_SEED", "0") or 0)) or wrapper_long(m, cbc_enc)
+    if r is not None:
+        return bad(*r)
     for fn, args in ((m._expand_key, (bytes(15),)), (m.aes_ecb_encrypt, (bytes(16), bytes(15))), (m.aes_cbc_encrypt, (bytes(16), bytes(15), bytes(16))),
                      (m.aes_cbc_decrypt, (bytes(16), bytes(16), bytes(17))), (m._aes_encrypt_block, (bytes(15), key_expansion(bytes(16))))):
         try:
